@@ -73,7 +73,11 @@ ASBUILT = {
   and not converging with a pressure controller (reported by a seeding agent, reproduced after (c) was widened).""",
 "C08": """* **As built (`props/c08.py`):** reference run (constant damping) vs three variants with redrawn `pn_bar` and / or `tfluid_k`
   and alternating damping method; `tfluid_k` only in bidirectional mode and in heat mode on a fixed hydraulic solution.
-  Observed deviation <= 3e-6 relative inside the conditioning rules of section 3.""",
+  Observed deviation <= 3e-6 relative inside the conditioning rules of section 3. Two converged runs that differ are examined
+  with the law monitors of C01 / C02 / C10: if both are lawful and differ in the direction of a flow (or the side of a pump /
+  compressor law) the network has **several solutions** - an **open finding** (`several_valid_solutions`; witness: a
+  friction-poor return loop with 40 m height differences in bidirectional mode, buoyancy decides between two circulations); if
+  a monitor rejects one of them, or no flow changes direction, it is a violation.""",
 "C09": """* **As built (`props/c09.py`, `rewrites.py`):** per case every applicable rewrite of {reverse (pipes, ju valves, heat
   exchangers), split multi-section pipes into series pipes with interpolated height / start pressure / start temperature and
   zeta/n each, merge sections (liquid, uniform temperature), aggregate or split loads incl. source -> negative sink, drop
@@ -107,7 +111,10 @@ ASBUILT = {
   full / subset / shuffled `time_steps`, with and without `continue_on_divergence`, hydraulics and sequential. All stand-alone
   references are computed first, then the series is judged up to the first diverged step (without continue) or throughout.
   A series that raises never finalises its OutputWriter: its earlier steps are read from the writer's raw buffer. Logged
-  values are compared bit-for-bit. H1 must deliver >= 1 pipeflow event per run.""",
+  values are compared bit-for-bit. H1 must deliver >= 1 pipeflow event per run. Every eighth case is a **multi-energy series**
+  (power net + 2-3 gas nets, one P2G coupling each so that the controllers of one level name different nets, half of the gas
+  nets with a profile of their own; added after seeded change R2_C13). **Found and fixed:** the control loop compared net
+  objects by content and raised ValueError for two gas nets with own controllers.""",
 "C14": """* **As built (`props/c14.py`):** exhaustive (both tiers): every default key + `iter` + an unknown key + the two excluded keys x
   {absent, user, call, both}; all 256 presence patterns of {iter, max_iter_hyd, max_iter_therm, max_iter_bidirect} x {user,
   call}; deprecated mode in each layer; the reuse coupling in 8 combinations; the numba fallback by toggling the module flag;
@@ -150,5 +157,5 @@ ASBUILT = {
   non-unit scalings, random orders / levels; heating values re-read from the data files; forth-and-back through a fresh G2P
   unit; members vs stand-alone pipeflow (bit-identical) / runpp (1e-10); converged flag; an overloaded member is judged only
   if its stand-alone pipeflow really fails (some overloaded gas nets still "converge" numerically); coupled time series of
-  3-5 steps compared per step with stand-alone runs.""",
+  3-5 steps compared per step with stand-alone runs. Half of the gas / heat members carry a controller of their own.""",
 }
